@@ -19,8 +19,8 @@ Decisions read off the code and made explicit in the spec:
   payloads of `future`/`stream` and the resource behind a handle are not contained values;
 * `borrowed`/`owned` are set on *named* types only.
 
-Known defect (see `error_fact_full_false`, `known_findings.jsonl` class `error-via-result-alias`):
-`TypeInfo.error` is not set when the function's result type is named through an alias.
+Repaired defect (was `error_fact_full_false`, class `error-via-result-alias`): `TypeInfo.error` was not set
+when the function's result type is named through an alias; since the `fix:` commit `error_fact` holds in full.
 -/
 namespace Witverif.Props.C28
 open Witverif.Text.TypesEq Witverif.Text.TypesEqSpec
@@ -316,8 +316,8 @@ theorem usage_facts {T : Table} (hwf : WF T) {named : List Bool} {funcs : List F
       named.getD a false = true ∧
         ∃ fn ∈ funcs, (fn.isImport = false ∧ a ∈ fn.paramLive) ∨ a ∈ fn.resultLive) ∧
     ((∃ i, infos[a]? = some i ∧ i.error = true) ↔
-      ∃ fn ∈ funcs, ∃ r ok e, fn.result = some (.id r) ∧
-        T[r]? = some (.result ok (some (.id e))) ∧ resolveTypeDefinitionId T (e + 1) e = some a) := by
+      ∃ fn ∈ funcs, ∃ r rd ok e, fn.result = some (.id r) ∧ resolveTypeDefinitionId T (r + 1) r = some rd ∧
+        T[rd]? = some (.result ok (some (.id e))) ∧ resolveTypeDefinitionId T (e + 1) e = some a) := by
   obtain ⟨hl, hs⟩ := analyze_spec hwf h
   have hai : infos[a]? = some (infos.getD a {}) := by
     have : a < infos.length := by rw [hl]; exact ha
@@ -391,12 +391,13 @@ theorem usage_facts_declarative {T : Table} (hwf : WF T) {named : List Bool} {fu
       · exact Or.inr (((hlive fn hfn).2 a).mpr hm)
 
 
-/-! ## 6. The `error` fact: full statement, its refutation, and the partial theorem -/
+/-! ## 6. The `error` fact (full statement; holds since the repair of `type_info_func` in /repo) -/
 
 /-- FULL statement of the `error` fact (alias-transparent, as the rest of C28 treats aliases):
 `error` is set exactly on the definition of the error type of every function whose result type
 is — directly or through `type`/`use` aliases — a `result`.
-**False of the current code** (`error_fact_full_false`). -/
+(Before the `fix:` commit in /repo this was false: only a result type that was *directly* a `result`
+was looked at; the old witness `wT`/`wFuncs` below is kept as a must-pass case.) -/
 def ErrorFactFull (T : Table) (named : List Bool) (funcs : List Func) : Prop :=
   ∀ infos, analyze T named funcs = some infos → ∀ a, a < T.length →
     ((∃ i, infos[a]? = some i ∧ i.error = true) ↔
@@ -406,63 +407,62 @@ def wT : Table := [.enum [['a'], ['b']], .result (some (.prim .u32)) (some (.id 
 def wFuncs : List Func :=
   [{ isImport := true, params := [], result := some (.id 2), paramLive := [], resultLive := [0, 1, 2] }]
 
-def wInfos : List TypeInfo := [{ owned := true }, { owned := true }, { owned := true }]
+/-- The former counterexample: `enum e {a,b}; type r = result<u32,e>;` and, in another interface,
+`use i.{r}; f: func() -> r;` — the table is `[enum, result<u32,#0>, alias #1]`, `f` returns `#2`.
+The repaired code sets `e.error`. -/
+theorem error_through_result_alias_is_marked :
+    analyze wT [true, true, true] wFuncs =
+      some [{ owned := true, error := true }, { owned := true }, { owned := true }] := by decide
 
-/-- Witness: `enum e {a,b}; type r = result<u32,e>;` and, in another interface, `use i.{r};
-f: func() -> r;` — the table is `[enum, result<u32,#0>, alias #1]`, `f` returns `#2`.
-The code leaves `e.error = false`. -/
-theorem error_fact_full_false : ¬ ∀ T named funcs, WF T → ErrorFactFull T named funcs := by
-  intro h
-  have h1 := h wT [true, true, true] wFuncs (by decide) wInfos (by decide) 0 (by decide)
-  obtain ⟨i, hi, he⟩ := h1.mpr ⟨_, List.mem_singleton.mpr rfl, .id 2, rfl, by decide⟩
-  simp only [wInfos, List.getElem?_cons_zero, Option.some.injEq] at hi
-  subst hi
-  exact absurd he (by decide)
+theorem resolve_lt {T : Table} {fuel r rd : Nat} (h : resolveTypeDefinitionId T fuel r = some rd) : r < T.length := by
+  cases fuel with
+  | zero => simp [resolveTypeDefinitionId] at h
+  | succ f =>
+    by_cases hr : r < T.length
+    · exact hr
+    · have : T[r]? = none := by simp; omega
+      simp [resolveTypeDefinitionId, this] at h
 
-
-/-- `error_fact` with the exact extra hypothesis: no function names its result type through an
-alias (`hdirect`). Then the `error` fact is exactly the alias-transparent statement. -/
-theorem error_fact_partial {T : Table} (hwf : WF T) {named : List Bool} {funcs : List Func}
-    (hdirect : ∀ fn ∈ funcs, ∀ r, fn.result = some (.id r) → ∀ t, T[r]? ≠ some (.alias t)) :
+/-- **The `error` fact, full strength**: for every well-formed table and every set of functions. -/
+theorem error_fact {T : Table} (hwf : WF T) {named : List Bool} {funcs : List Func} :
     ErrorFactFull T named funcs := by
   intro infos h a ha
   rw [(usage_facts hwf h ha).2.2]
-  have hroot : ∀ r, (∀ t, T[r]? ≠ some (.alias t)) → aliasTarget T (T.length + 1) (.id r) = .id r := by
-    intro r hr
-    simp only [aliasTarget]
-    split
-    · rename_i j hj; exact absurd hj (hr _)
-    · rfl
   constructor
-  · rintro ⟨fn, hfn, r, ok, e, hres, hT, hre⟩
+  · rintro ⟨fn, hfn, r, rd, ok, e, hres, hrd, hT, hre⟩
     refine ⟨fn, hfn, .id r, hres, ?_⟩
-    have hrn : r < T.length := (List.getElem?_eq_some_iff.mp hT).1
-    have her : e < r := hwf.ref_lt hT (by simp [Def.refs, optTys])
+    have hrl : r < T.length := resolve_lt hrd
+    obtain ⟨d0, g1, g2, g3⟩ := resolve_eq_aliasTarget hwf (r + 1) r (by omega) hrl
+    rw [hrd] at g1; cases g1
+    have her : e < rd := hwf.ref_lt hT (by simp [Def.refs, optTys])
     obtain ⟨d, h1, _, h3⟩ := resolve_eq_aliasTarget hwf (e + 1) e (by omega) (by omega)
     rw [hre] at h1; cases h1
-    simp only [errorTypeOf, hroot r (hdirect fn hfn r hres), hT, h3 (T.length + 1) (by omega)]
+    simp only [errorTypeOf, g3 (T.length + 1) (by omega), hT, h3 (T.length + 1) (by omega)]
   · rintro ⟨fn, hfn, r', hres, herr⟩
     cases r' with
     | prim p => simp [errorTypeOf, aliasTarget] at herr
     | id r =>
-      simp only [errorTypeOf, hroot r (hdirect fn hfn r hres)] at herr
-      split at herr
-      · rename_i ok e' hT
+      by_cases hrl : r < T.length
+      · obtain ⟨rd, g1, g2, g3⟩ := resolve_eq_aliasTarget hwf (r + 1) r (by omega) hrl
+        simp only [errorTypeOf, g3 (T.length + 1) (by omega)] at herr
         split at herr
-        · rename_i d hd
-          simp only [Option.some.injEq, Ty.id.injEq] at herr
-          subst herr
-          cases e' with
-          | prim p => simp [aliasTarget] at hd
-          | id e =>
-            have hrn : r < T.length := (List.getElem?_eq_some_iff.mp hT).1
-            have her : e < r := hwf.ref_lt hT (by simp [Def.refs, optTys])
-            obtain ⟨d', h1, _, h3⟩ := resolve_eq_aliasTarget hwf (e + 1) e (by omega) (by omega)
-            rw [h3 (T.length + 1) (by omega)] at hd
-            cases hd
-            exact ⟨fn, hfn, r, ok, e, hres, hT, h1⟩
+        · rename_i ok e' hT
+          split at herr
+          · rename_i d hd
+            simp only [Option.some.injEq, Ty.id.injEq] at herr
+            subst herr
+            cases e' with
+            | prim p => simp [aliasTarget] at hd
+            | id e =>
+              have her : e < rd := hwf.ref_lt hT (by simp [Def.refs, optTys])
+              obtain ⟨d', h1, _, h3⟩ := resolve_eq_aliasTarget hwf (e + 1) e (by omega) (by omega)
+              rw [h3 (T.length + 1) (by omega)] at hd
+              cases hd
+              exact ⟨fn, hfn, r, rd, ok, e, hres, g1, hT, h1⟩
+          · simp at herr
         · simp at herr
-      · simp at herr
+      · have hn : T[r]? = none := by simp; omega
+        simp [errorTypeOf, aliasTarget, hn] at herr
 
 
 /-! ## Non-vacuity -/
